@@ -12,7 +12,8 @@ Acts == {"Plot", "Mine", "Stop", "Remove", "Delete"}
 Act == IF Coin(4) THEN RS({"Remove", "Delete"}) ELSE RS({"Plot", "Mine", "Mine", "Stop"})
 Flags == RS({<<"registered">>, <<"plotting">>, <<"ready">>, <<"mining">>, <<"registered", "ready">>, <<"plotting", "mining">>,
              <<"registered", "plotting", "ready", "mining">>, <<"ready", "mining">>})
-OneOp == CASE Coin(3) -> [a |-> "Act", w |-> RS(W), act |-> Act]
+OneOp == CASE Coin(12) -> [a |-> RS({"StartK", "StopK"})]        \* starting / stopping the keeper while the others go on
+           [] Coin(3) -> [a |-> "Act", w |-> RS(W), act |-> Act]
            [] Coin(3) -> [a |-> "Bulk", flags |-> Flags, act |-> Act]
            [] Coin(2) -> [a |-> "Query", flags |-> Flags]
            [] Coin(3) -> [a |-> "Proofs"]
